@@ -167,6 +167,7 @@ Check(sl, r) ==
 
 Results == {"ok", "noop", "rejRoute", "rejAuth", "rejType", "rejFrom", "rejNonce", "rejSelf", "rejMember", "rejCmd", "rejQuery"}
 
+\* Next enumerates the reply so that every edge of TLC's state graph is labelled Tx(b, sl, route, snd, res).
 Next ==
   \/ \E b \in Bodies, sl \in SigLists, route \in {"contract", "direct"}, snd \in Accounts, res \in Results :
         Tx(b, sl, route, snd, res)
@@ -176,7 +177,21 @@ Next ==
   \/ \E r \in Replicas, b \in Bodies, sl \in SigLists, snd \in Accounts, res \in Results : Query(r, b, sl, snd, res)
   \/ (TallyOnly /\ \E sl \in SigLists, r \in BOOLEAN : Check(sl, r))
 
-Spec == Init /\ [][Next]_vars
+\* The same relation with the reply computed instead of guessed (11 times fewer evaluations); TLC cannot label
+\* these steps, the action and its arguments are read from `last`.  Used for the large configurations.
+NextFast ==
+  \/ \E b \in Bodies, sl \in SigLists, route \in {"contract", "direct"}, snd \in Accounts :
+        Tx(b, sl, route, snd, Result(vals, nonce, b, sl, route, snd))
+  \/ \E snd \in Accounts : Resend(snd)
+  \/ CloseBlock
+  \/ \E r \in Replicas, out \in {"ok", "endBlockError"} : Exec(r, out)
+  \/ \E r \in Replicas, b \in Bodies, sl \in SigLists, snd \in Accounts :
+        /\ rep[r].h > 0
+        /\ Query(r, b, sl, snd, IF QueryOpen THEN Result(rep[r].vals, chain[rep[r].h].nonce, b, sl, "contract", snd) ELSE "rejQuery")
+  \/ (TallyOnly /\ \E sl \in SigLists : Check(sl, Major23(vals, sl)))
+
+Spec     == Init /\ [][Next]_vars
+SpecFast == Init /\ [][NextFast]_vars
 
 \* the chain stays operable: some validator keeps power (removing the last one stops every replica alike)
 Viable == /\ Total(vals) > 0
